@@ -11,6 +11,8 @@ mod model;
 mod rng;
 mod world_fld;
 mod world_grp;
+mod world_misc;
+mod world_wire;
 
 use common::*;
 use serde::{Deserialize, Serialize};
@@ -24,6 +26,14 @@ pub enum Spec {
     Fld(world_fld::FldSpec),
     #[serde(rename = "grp")]
     Grp(world_grp::GrpSpec),
+    #[serde(rename = "wire8")]
+    Wire8(world_wire::Wire8Spec),
+    #[serde(rename = "wire9")]
+    Wire9(world_wire::Wire9Spec),
+    #[serde(rename = "wire10")]
+    Wire10(world_wire::Wire10Spec),
+    #[serde(rename = "misc")]
+    Misc(world_misc::MiscSpec),
 }
 
 pub fn world_id(w: &str) -> u64 {
@@ -57,6 +67,10 @@ fn generate(world: &str, master: u64, index: u64, ctx: &GenCtx) -> Result<Spec, 
             }
         }
         "pair" => Ok(Spec::Grp(world_grp::generate(seed, true))),
+        "wire8" => Ok(Spec::Wire8(world_wire::generate8(seed, index, ctx.tier_thorough))),
+        "wire9" => Ok(Spec::Wire9(world_wire::generate9(seed, index))),
+        "wire10" => Ok(Spec::Wire10(world_wire::generate10(seed, index))),
+        "misc" => Ok(Spec::Misc(world_misc::generate(seed))),
         _ => Err(format!("unknown world {}", world)),
     }
 }
@@ -65,6 +79,10 @@ fn exec(spec: &Spec, prop: &str) -> RunResult {
     match spec {
         Spec::Fld(s) => world_fld::exec(s, prop),
         Spec::Grp(s) => world_grp::exec(s, prop),
+        Spec::Wire8(s) => world_wire::exec8(s, prop),
+        Spec::Wire9(s) => world_wire::exec9(s, prop),
+        Spec::Wire10(s) => world_wire::exec10(s, prop),
+        Spec::Misc(s) => world_misc::exec(s, prop),
     }
 }
 
@@ -72,6 +90,10 @@ fn ops_len(spec: &Spec) -> usize {
     match spec {
         Spec::Fld(s) => s.ops.len(),
         Spec::Grp(s) => s.ops.len(),
+        Spec::Wire8(s) => s.ops.len(),
+        Spec::Wire9(s) => s.ops.len(),
+        Spec::Wire10(s) => s.ops.len(),
+        Spec::Misc(s) => s.ops.len(),
     }
 }
 
@@ -86,6 +108,26 @@ fn keep_ops(spec: &Spec, keep: &[bool]) -> Spec {
             let mut t = s.clone();
             t.ops = s.ops.iter().zip(keep).filter(|(_, k)| **k).map(|(o, _)| o.clone()).collect();
             Spec::Grp(t)
+        }
+        Spec::Wire8(s) => {
+            let mut t = s.clone();
+            t.ops = s.ops.iter().zip(keep).filter(|(_, k)| **k).map(|(o, _)| o.clone()).collect();
+            Spec::Wire8(t)
+        }
+        Spec::Wire9(s) => {
+            let mut t = s.clone();
+            t.ops = s.ops.iter().zip(keep).filter(|(_, k)| **k).map(|(o, _)| o.clone()).collect();
+            Spec::Wire9(t)
+        }
+        Spec::Wire10(s) => {
+            let mut t = s.clone();
+            t.ops = s.ops.iter().zip(keep).filter(|(_, k)| **k).map(|(o, _)| o.clone()).collect();
+            Spec::Wire10(t)
+        }
+        Spec::Misc(s) => {
+            let mut t = s.clone();
+            t.ops = s.ops.iter().zip(keep).filter(|(_, k)| **k).map(|(o, _)| o.clone()).collect();
+            Spec::Misc(t)
         }
     }
 }
@@ -105,8 +147,30 @@ fn same_failure(a: &Violation, b: &Option<Violation>) -> bool {
 
 /// ddmin by deletion (any subsequence of a program is a valid program), then per-op
 /// simplification, keeping the same violation signature. Bounded by `max_execs`.
-fn minimise(spec: &Spec, prop: &str, viol: &Violation, max_execs: usize) -> (Spec, Violation, usize) {
+fn with_single_op(spec: &Spec, op: &serde_json::Value) -> Option<Spec> {
+    match spec {
+        Spec::Wire8(s) => {
+            let f: world_wire::Fault = serde_json::from_value(op.clone()).ok()?;
+            let mut t = s.clone();
+            t.ops = vec![f];
+            Some(Spec::Wire8(t))
+        }
+        _ => None,
+    }
+}
+
+fn minimise(spec: &Spec, prop: &str, viol: &Violation, concrete: &Option<serde_json::Value>, max_execs: usize) -> (Spec, Violation, usize) {
     let mut execs = 0usize;
+    // 0. a violation inside a macro operation: replay the concrete single operation alone
+    if let Some(c) = concrete {
+        if let Some(cand) = with_single_op(spec, c) {
+            let r = exec(&cand, prop);
+            execs += 1;
+            if same_failure(viol, &r.violation) {
+                return (cand, r.violation.unwrap(), execs);
+            }
+        }
+    }
     // 1. truncate after the failing step
     let n = ops_len(spec);
     let mut keep = vec![true; n];
@@ -284,7 +348,7 @@ fn cmd_run(args: &[String]) {
             *counters.entry("violating_runs".into()).or_insert(0) += 1;
             if !sigs_seen.contains(&v.signature) && violations.len() < max_viol {
                 sigs_seen.insert(v.signature.clone());
-                let (mspec, mv, execs) = if no_min { (spec.clone(), v.clone(), 0) } else { minimise(&spec, prop, v, 400) };
+                let (mspec, mv, execs) = if no_min { (spec.clone(), v.clone(), 0) } else { minimise(&spec, prop, v, &r.concrete_op, 400) };
                 violations.push(json!({
                     "index": i,
                     "violation": mv,
